@@ -28,6 +28,14 @@ CLAIMED = {
      text='For every n and interval the differentiation matrix model is antisymmetric and (odd n) circulant with zero row sums, commutes with shifts and anticommutes with reversal; the model equals the implementation bit-for-bit on every generated size. Newton: never worse than the initial guess, accepts only decreasing steps, warns whenever the returned residual exceeds 1e4*tol. fourier_minimum: first valid bracket is chosen, result <= every sample under the stated scipy oracle hypotheses, decisions invariant under cyclic shifts.',
      note='Not proved (numeric oracle only): exact differentiation of every resolvable mode, interpolation exactness away from nodes, convergence of Newton on smooth well-posed systems; even n needs the Nyquist entry 1/tan(pi/2) to be exactly 0 (float value 6e-17).',
      ref='DESIGN.md section 6 C20'),
+ 'C11': dict(level='proof', technique='Coq theorems (ring/reflexivity, sum positivity by induction) on the program regenerated from mercier(); numeric closed-form oracle',
+     text='DMerc = DWell + DGeod, the closed forms of DWell and of the reported d2_volume_d_psi2, vanishing of all three terms at p2 = 0 (every index type and environment), and DGeod <= 0 for every grid size under the stated positivity hypotheses.',
+     note='Unproved clause: the geometric one (reported V\'\' equals the second psi-derivative of the volume enclosed by the constructed surfaces; V\' = 4 pi^2 |G0|/B0^2) -- it needs the O(r^3) geometry in the continuum model. Quadrature error not modelled.',
+     ref='DESIGN.md section 6 C11'),
+ 'C13': dict(level='proof', technique='Coq theorems (trigonometric addition formulas + ring) on the regenerated r1/r2/r3 untwisting blocks and the four B_mag programs; axiom-free theorems on a hand-written quadrant-counter model tied to the code by evaluating the model inside Coq on the sign patterns of real objects',
+     text='Untwisted coefficients describe the same surfaces (harmonics 1, 2, 3; identity at helicity 0); iotaN = iota + helicity*nfp; B_mag returns the prescribed |B| in the helical angle and the cylindrical / Boozer conventions agree; the helicity counter is an integer, odd under mirror and reversal, invariant under rotation of the origin, and equals the signed number of 4->1 crossings.',
+     note='Not proved: the quadrant counter equals the winding number of the continuous normal only on a resolved grid (checked numerically against an unwrapped-angle winding number); spline error off the nodes; the factor sG*spsi multiplying the counter is glue outside the model (covered by the correspondence).',
+     ref='DESIGN.md section 6 C13'),
 }
 checks, na = [], []
 for p in props:
